@@ -432,7 +432,7 @@ Definition usable_names (names : list bytes) : bool :=
   forallb usable_name names && nodup_b (map fold names).
 
 (* ---- the documented contract of encoding/json for the synthetic struct ----
-   (used only as a HYPOTHESIS on the oracle in c16_positional_elementwise and
+   (used only as a HYPOTHESIS on the oracle in c16_positional_accepts_exactly (PosElem.v) and
    checked against the real library by the correspondence run)
 
    Decoding an object into struct{P_1 X_1 `json:"n_1,omitempty"`; ...}: each key
@@ -461,7 +461,9 @@ Fixpoint set_nth {A} (i : nat) (v : A) (l : list A) : list A :=
 
 Section Contract.
   (* decode_elt T e: the value encoding/json produces from the element e in a
-     fresh variable of type T, or None *)
+     fresh variable of type T, or None - with DisallowUnknownFields, because the
+     strictness of a Decoder applies at every depth (an element that is itself
+     an object with an unknown field fails the whole decode) *)
   Variable decode_elt : ty -> elt -> option value.
   Variable zero : ty -> value.
 
